@@ -220,6 +220,66 @@ def resample_refusals(case, ctx):
         raise Violation("C17.resample.refuse_mutates", "refused resample changed the plane")
 
 
+# --- fine scans of the scale factor on one plane ---------------------------------------------------------------------
+
+@hyp("C17", "scale_scan", lambda tier: st.fixed_dictionaries(
+        {"shape": st.tuples(st.integers(16, 40), st.integers(16, 40)).map(list), "seed": st.integers(0, 2**31 - 1),
+         "base": st.sampled_from([0.71, 1.26, 2.04, 1.0, 3.1, 0.5]), "steps": st.lists(st.integers(-6, 6), min_size=2, max_size=5),
+         "via_resample": st.booleans(), "segmented": st.booleans()}),
+     "one plane rescaled / resampled at a sequence of neighbouring scale factors (steps of 0.1 .. 2 % - several of them "
+     "give the same ceil(n*s) array shape): every result is identical to what the same call returns when it is the "
+     "first rescale after an unrelated one (the result depends on the plane and the factor, not on the previous "
+     "call), and its transmitted power follows the factor", examples=(80, 300), budget_s=(150, 600))
+def scale_scan(case, ctx):
+    m, n = case["shape"]
+    rng = np.random.default_rng(case["seed"])
+    yy, xx = np.mgrid[0:m, 0:n].astype(float)
+    sig = min(m, n) / 5.0
+    amp = np.exp(-((yy - m / 2) ** 2 + (xx - n / 2) ** 2) / (2 * sig ** 2))
+    c = rng.normal(size=3)
+    opd = 5e-8 * (c[0] * (yy - m / 2) / m + c[1] * ((xx - n / 2) / n) ** 2 + c[2] * (yy - m / 2) * (xx - n / 2) / (m * n) + 0.3)
+    mask = None
+    if case["segmented"]:
+        left = np.zeros((m, n), dtype=int)
+        left[:, :n // 2] = 1
+        mask = np.stack([left, 1 - left])
+    ps = 7e-3
+    with lentil_call("C17.scan.build", "plane"):
+        p = lentil.Pupil(amplitude=amp.copy(), opd=opd.copy(), mask=None if mask is None else mask.copy(), pixelscale=ps, focal_length=5.0)
+        other = lentil.Pupil(amplitude=np.ones((7, 9)), pixelscale=ps, focal_length=5.0)
+    scales = [case["base"] * (1 + 0.003 * k) for k in case["steps"]]
+    shapes = [(int(np.ceil(m * s_)), int(np.ceil(n * s_))) for s_ in scales]
+    same_shape_neighbours = any(shapes[i] == shapes[i + 1] and scales[i] != scales[i + 1] for i in range(len(scales) - 1))
+    ctx.tag("same_shape_neighbours" if same_shape_neighbours else "shapes_differ", "resample" if case["via_resample"] else "rescale",
+            "segmented" if case["segmented"] else "monolithic", f"n_scales:{len(scales)}")
+    ctx.nontrivial_if(same_shape_neighbours)
+
+    def do(plane, s_):
+        q = plane.resample(ps / s_) if case["via_resample"] else plane.rescale(s_)
+        return (np.asarray(q.amplitude).copy(), np.asarray(q.opd).copy(), np.asarray(q.mask).copy(), tuple(q.pixelscale))
+
+    with lentil_call("C17.scan.isolated", "each factor right after an unrelated rescale"):
+        iso = []
+        for s_ in scales:
+            other.rescale(1.5)                       # an unrelated geometry in between
+            iso.append(do(p, s_))
+    with lentil_call("C17.scan.sequence", "the factors one after the other"):
+        seq = [do(p, s_) for s_ in scales]
+    P0 = float(np.sum(amp ** 2))
+    for i, s_ in enumerate(scales):
+        for name, a, b in zip(("amplitude", "opd", "mask"), iso[i][:3], seq[i][:3]):
+            if a.shape != b.shape or not np.array_equal(a, b):
+                d = float(np.max(np.abs(a - b))) if a.shape == b.shape else float("nan")
+                raise Violation("C17.scan.history", f"{'resample' if case['via_resample'] else 'rescale'} by {s_!r} right after the same plane was "
+                                                    f"rescaled by {scales[i - 1]!r} gives another {name} (max difference {d:.3e}) than the same "
+                                                    f"call after an unrelated rescale (array shapes {a.shape} / {b.shape})")
+        if iso[i][3] != seq[i][3]:
+            raise Violation("C17.scan.history", f"pixel scale {seq[i][3]} vs {iso[i][3]} for the same call")
+        P1 = float(np.sum(seq[i][0] ** 2))
+        if abs(P1 - P0) > 0.02 * P0:
+            raise Violation("C17.power", f"transmitted power {P1:.6g} after rescale(s={s_:.5g}) vs {P0:.6g} before")
+
+
 # --- segments that share boundary samples -----------------------------------------------------------------------
 
 @st.composite
